@@ -296,6 +296,9 @@ def admit_collect(ctx: Ctx) -> None:
                             continue
                         if isinstance(part, ast.Compare) and isinstance(part.left, ast.Constant) and part.left.value == "primitive_op":
                             continue
+                        # for n, op in dag.nodes(data="primitive_op") if op is not None
+                        if isinstance(part, ast.Compare) and isinstance(part.ops[0], ast.IsNot) and isinstance(part.comparators[0], ast.Constant) and part.comparators[0].value is None and isinstance(part.left, ast.Name) and "'primitive_op'" in unparse(g.iter, 200):
+                            continue
                         extra.append(unparse(part))
             ctx.ob(find, cm, not extra, "every node with a primitive_op is tested" + ("" if not extra else f" — extra filter {extra}"), sel="coverage")
     else:
